@@ -14,7 +14,7 @@
 (* stream is exactly one token whose decoded value is s.  The exact text   *)
 (* of enc is not prescribed (any encoding that round-trips is accepted).   *)
 (***************************************************************************)
-EXTENDS QuoteCodec, Json, TLC
+EXTENDS QuoteCodec, Json, TLC, Held
 VARIABLE l
 Trace == ndJsonDeserialize("trace.ndjson")
 F(ok, name) == IF ok THEN "" ELSE name \o "; "
@@ -37,7 +37,7 @@ Next ==
   /\ l' = l + 1
   /\ LET e == Trace[l] IN
      /\ (~Drift(e) \/ PrintT("SPEC-DRIFT " \o ToString(l) \o " encoding differs from QuoteCodec.Encode"))
-     /\ LET f == Fails(e) IN f = "" \/ PrintT("VERIF-FAIL " \o ToString(l) \o " " \o f)
+     /\ LET f == Fails(e) IN Report(l, f, Trace[l])
 Spec == Init /\ [][Next]_l
 Accepted == TLCGet("stats").diameter - 1 = Len(Trace)
 =============================================================================
